@@ -103,7 +103,9 @@ class Builder:
         self.repo = os.path.realpath(repo)
         self.san = san
         self.quiet = quiet
-        self.variant = "san" if san else "std"
+        # san: False (std) | True (ASan+UBSan) | "instr" (runtime TUs compiled with -finstrument-functions: the simulator can
+        # pre-empt a simulated thread at function-call granularity, see harness/simthreads.cpp)
+        self.variant = "instr" if san == "instr" else ("san" if san else "std")
         self.gen = os.path.join(CACHE, "gen")
         self.objdir = os.path.join(CACHE, "obj")
         self.depdir = os.path.join(CACHE, "dep", self.variant)
@@ -115,7 +117,7 @@ class Builder:
                            "-DSPDLOG_FMT_EXTERNAL", "-DHGRAPH_TIME_ZONE_BACKEND_STD=1"]
         if os.environ.get("HGRAPH_VERIF") == "1":
             self.base_flags.append("-DHGRAPH_VERIF=1")
-        if san:
+        if san is True:
             self.base_flags += ["-fsanitize=address,undefined", "-fno-omit-frame-pointer", "-fno-sanitize-recover=undefined"]
         self.includes = ["-I" + self.gen, "-I" + os.path.join(self.repo, "include"),
                          "-I" + os.path.join(self.repo, "include/third_party"),
@@ -196,6 +198,9 @@ class Builder:
             extra = []
             if t in CHRONO_SHIM_TUS:
                 extra = ["-include", os.path.join(VERIF, "build/compat/chrono_compat.h")]
+            if self.variant == "instr" and t.startswith("hgraph/runtime/"):
+                extra = extra + ["-finstrument-functions",
+                                 "-finstrument-functions-exclude-file-list=/usr/include,/usr/lib,third_party,site-packages,/gen/"]
             jobs.append(("repo/" + t, os.path.join(self.repo, "src", t), extra))
         hdir = os.path.join(VERIF, "harness")
         for f in sorted(os.listdir(hdir)):
@@ -230,7 +235,7 @@ class Builder:
             cmd = [CXX, "-pthread", "-rdynamic", "@" + rsp, "-o", binary + ".tmp",
                    "-L" + SP + "/pyarrow", "-l:libarrow.so.2500", "-l:libarrow_compute.so.2500",
                    "-l:libarrow_acero.so.2500", "-Wl,-rpath," + SP + "/pyarrow", "-lpthread", "-ldl"]
-            if self.san:
+            if self.san is True:
                 cmd.insert(1, "-fsanitize=address,undefined")
             p = subprocess.run(cmd, capture_output=True, text=True)
             if p.returncode != 0:
@@ -309,7 +314,7 @@ def tree_stamp(repo, variant):
 def build(repo="/repo", san=False, quiet=True):
     os.makedirs(CACHE, exist_ok=True)
     os.makedirs(os.path.join(CACHE, "stamp"), exist_ok=True)
-    stamp = os.path.join(CACHE, "stamp", tree_stamp(os.path.realpath(repo), "san" if san else "std"))
+    stamp = os.path.join(CACHE, "stamp", tree_stamp(os.path.realpath(repo), "instr" if san == "instr" else ("san" if san else "std")))
     if os.path.exists(stamp):
         binary = open(stamp).read().strip()
         if os.path.exists(binary):
@@ -342,9 +347,10 @@ if __name__ == "__main__":
     ap = argparse.ArgumentParser()
     ap.add_argument("--repo", default=os.environ.get("VERIF_REPO", "/repo"))
     ap.add_argument("--san", action="store_true")
+    ap.add_argument("--instr", action="store_true")
     ap.add_argument("--quiet", action="store_true")
     a = ap.parse_args()
-    out = build(a.repo, san=a.san, quiet=a.quiet)
+    out = build(a.repo, san="instr" if a.instr else a.san, quiet=a.quiet)
     if not out:
         sys.exit(2)
     print(out)
